@@ -87,7 +87,7 @@ func runTwoExporters(pl *plan.Plan, out *plan.Outcome, check func(s *expSession)
 		}
 	})
 	if res := env.Run(); res != "done" && out.Trouble == "" {
-		out.Trouble = "run ended: " + res
+		env.runEnded(res, out)
 	}
 	ok := 0
 	for _, s := range sess {
